@@ -25,6 +25,7 @@ RULE = (
     '||A.I(y) - A^-1 y|| <= 10 rtol kappa ||A^-1 y|| + atol-term, and A.I.as_matrix() == numpy inverse. (c) non-square '
     'operators of every kind: .I raises ValueError. non-trivial = a diagonal with >= 1 zero, a nested block container, '
     'kappa >= 10, or a non-default solver.'
+    ' Also: for a third of the SPD cases the same operator object is first inverted under a configuration that cannot solve (1 CG step, no error raised); the inverse under test must use its own configuration.'
 )
 ASSUMPTIONS = [
     'CG bound calibrated at design time on 294 random SPD systems (largest observed ratios 0.43 and 0.27)',
